@@ -102,7 +102,7 @@ fn exec_t_child(prop: &str, plan: &Rc<Plan>) -> Result<Executed, String> {
     use std::io::Write as _;
     let exe = std::env::current_exe().map_err(|e| e.to_string())?;
     let mut child = std::process::Command::new(exe)
-        .args(["exec-plan", "--prop", prop])
+        .env("SIM_WORKER_ARGS", serde_json::json!(["exec-plan", "--prop", prop]).to_string())
         .stdin(std::process::Stdio::piped())
         .stdout(std::process::Stdio::piped())
         .stderr(std::process::Stdio::piped())
@@ -150,7 +150,18 @@ fn exec(prop: &str, plan: &Rc<Plan>) -> Result<Executed, String> {
 }
 
 fn main() -> ExitCode {
-    let args: Vec<String> = std::env::args().collect();
+    // The driver passes the worker's arguments in SIM_WORKER_ARGS (a JSON array) and leaves argv empty:
+    // code under test that falls back to parsing the *process* arguments (`cli::Opts::parsed()`, when
+    // CLI options given through `with_cli` get lost) then sees an ordinary test binary's command line
+    // instead of aborting the process on the worker's own flags.
+    let args: Vec<String> = match std::env::var("SIM_WORKER_ARGS") {
+        Ok(j) => {
+            let mut v: Vec<String> = serde_json::from_str(&j).unwrap_or_default();
+            v.insert(0, std::env::args().next().unwrap_or_default());
+            v
+        }
+        Err(_) => std::env::args().collect(),
+    };
     let mode = args.get(1).cloned().unwrap_or_default();
     let res = std::panic::catch_unwind(|| match mode.as_str() {
         "run" => run(&args),
